@@ -2,6 +2,9 @@
 import Driver.Common
 import AskarModel.Model.Jwk
 import AskarModel.Crypto.Ec
+import AskarModel.Crypto.Ed25519
+import AskarModel.Crypto.X25519
+import AskarModel.Crypto.Sha2
 
 open Lean Askar Askar.Jwk
 
@@ -44,6 +47,26 @@ def prims (prim : Json) : Prims :=
       match curveOf alg with
       | some c => c.fromSec1 b
       | none => hint prim ("dec:" ++ alg.name ++ ":" ++ Bytes.toHex b) }
+
+/-- for the keypair and conversion cases Curve25519 is computed here as well (RFC 8032 / RFC 7748 specifications in
+    `Crypto/Ed25519.lean`, `Crypto/X25519.lean`), not taken from the case's table: public key of an Ed25519 / X25519 secret and the
+    validity of an Ed25519 public key (`VerifyingKey::from_bytes` = lenient decompression, the bytes are kept as given) -/
+def nativePrims (P : Prims) : Prims :=
+  { P with
+    pubOf := fun alg b =>
+      if alg = .ed25519 then some (Crypto.Ed25519.publicKey b)
+      else if alg = .x25519 then some (Crypto.X25519.pubOf b)
+      else P.pubOf alg b
+    decodePub := fun alg b =>
+      if alg = .ed25519 then (if Crypto.Ed25519.validPublic b then some b else none) else P.decodePub alg b }
+
+/-- RFC 7748 §4.1: (u, v) = ((1+y)/(1-y), …) of the point that `decodeLenient` finds; 0 for y = 1 (inversion by Fermat: 0 ↦ 0) -/
+def edToMontgomery (b : Bytes) : Option Bytes :=
+  (Crypto.Ed25519.decodeLenient b).map fun pt =>
+    let p := Crypto.Ed25519.p
+    Crypto.Ed25519.natLE 32 ((1 + pt.y) % p * Crypto.Ed25519.finv (Crypto.Ed25519.fsub 1 pt.y) % p)
+
+def convPrims : ConvPrims := { sha512 := Crypto.Sha2.sha512L, edToMontgomery := edToMontgomery }
 
 def ascii (b : Bytes) : String := String.ofList (b.map fun c => Char.ofNat c.toNat)
 
@@ -125,6 +148,51 @@ def runCase (j : Json) : Json :=
     match algOfName (str! j "alg") with
     | some alg => jres jkey (fromPublicBytes P alg (hex! j "bytes"))
     | none => jerr "unknown alg"
+  else if kind == "c14:enc" || kind == "c14:convert" then
+    let PN := if kind == "c14:convert" then nativePrims P else P
+    let src : Res Key :=
+      match (j.getObjVal? "jwk").toOption with
+      | some (.str h) => fromJwk cfg PN ((Bytes.ofHex h).getD [])
+      | _ =>
+        match algOfName (str! j "alg") with
+        | none => .err .unsupported
+        | some alg =>
+          match (j.getObjVal? "secret").toOption with
+          | some (.str h) => fromSecretBytes cfg PN alg ((Bytes.ofHex h).getD [])
+          | _ => fromPublicBytes PN alg (hex! j "public")
+    match src with
+    | .err e => Json.mkObj [("import_err", Json.str e.name)]
+    | .panic _ => Json.mkObj [("import_err", Json.str "Panic")]
+    | .ok k =>
+      if kind == "c14:convert" then
+        match algOfName (str! j "to") with
+        | none => jerr "unknown alg"
+        | some to => Json.mkObj [("conv", jres jkey (convertKey PN convPrims k to))]
+      else
+        let mode := match str! j "mode" with | "public" => Mode.publicKey | "secret" => Mode.secretKey | _ => Mode.thumbprint
+        let view := (strOpt j "view").bind algOfName
+        let ops := match (j.getObjVal? "ops").toOption with | some (.num n) => some n.mantissa.toNat | _ => none
+        let kid := match (j.getObjVal? "kid").toOption with | some (.str h) => some ((Bytes.ofHex h).getD []) | _ => none
+        -- `"bracket": true | false` in a case overrides the encoder variant (validation of the repaired model against a patched build)
+        let bracket := match (j.getObjVal? "bracket").toOption with | some (.bool b) => b | _ => keyOpsBracketCurrent
+        match toJwkWith bracket k mode view ops kid with
+        | .ok t => Json.mkObj [("text", jhex t), ("parts", match parseJwk cfg t with
+            | some p => Json.mkObj [("parts", jparts p)] | none => jerr "Invalid")]
+        | .err e => jerr e.name
+        | .panic _ => jerr "Panic"
+  else if kind == "c14:keypair" then
+    match algOfName (str! j "alg") with
+    | none => jerr "unknown alg"
+    | some alg =>
+      let PN := nativePrims P
+      if str! j "op" == "to_public" then
+        match fromPublicBytes PN alg (hex! j "bytes") with
+        | .ok k => Json.mkObj [("keypair", jres jhex (toKeypairBytes k))]
+        | .err e => Json.mkObj [("keypair", jerr e.name)]
+        | .panic _ => Json.mkObj [("keypair", jerr "Panic")]
+      else
+        jres (fun k => Json.mkObj [("secret", jres jhex (toSecretBytes k)), ("public", jres jhex (toPublicBytes k)),
+          ("keypair", jres jhex (toKeypairBytes k))]) (fromKeypairBytes cfg PN alg (hex! j "bytes"))
   else jerr ("unknown kind " ++ kind)
 
 end Driver.C14
